@@ -314,4 +314,79 @@ def interpolateReads (s : IState) : Reads :=
     result := s.pts,
     neighboursCurrent := s.evalNnpsCurrent && decide (s.nnps.seen = s.nnps.objs.map s.ver) }
 
+/-! ### Staging: what `interpolate(prop)` writes into `temp_prop`
+
+`Interpolator.interpolate` (interpolator.py) starts with
+
+    for array in self.particle_arrays:
+        if prop not in array.properties:
+            data = 0.0
+        else:
+            data = array.get(prop, only_real_particles=False)
+        array.get('temp_prop', only_real_particles=False)[:] = data
+
+and only then calls `func_eval.compute`; the equations read `s_temp_prop` (the
+`f` of a neighbour record), never the property itself.  `temp_prop` is a
+property of the SOURCE array (added by `_set_particle_arrays` only when the
+array does not have it already, so an array may arrive with any contents), it
+survives from one `interpolate` call to the next, and the assignment `[:] = data`
+overwrites ALL its entries: with the array of values when the array owns `prop`,
+with the scalar `0.0` broadcast over all entries when it does not. -/
+
+/-- a source array as the staging loop sees it: the number of particles
+(`only_real_particles=False`: all of them) and the property table -/
+structure ArrData (α : Type) where
+  n : Nat
+  props : List (String × List α)
+
+section
+variable {α : Type} [OfNat α 0]
+
+/-- `data` of the staging loop, as the new contents of `temp_prop`:
+`array.get(prop)` when `prop in array.properties`, else `0.0` broadcast over
+the `n` entries -/
+def stagedValues (a : ArrData α) (prop : String) : List α :=
+  match a.props.lookup prop with
+  | some v => v
+  | none => List.replicate a.n 0
+
+/-- contents of `temp_prop` per object identity -/
+abbrev Temp (α : Type) := Nat → List α
+
+/-- one iteration of the staging loop: `array.get('temp_prop')[:] = data`
+overwrites the `temp_prop` of array `o`, nothing else -/
+def stageStep (env : Nat → ArrData α) (prop : String) (temp : Temp α) (o : Nat) : Temp α :=
+  fun x => if x = o then stagedValues (env o) prop else temp x
+
+/-- the staging loop over `self.particle_arrays` -/
+def stage (env : Nat → ArrData α) (prop : String) (arrays : List Nat) (temp : Temp α) : Temp α :=
+  arrays.foldl (stageStep env prop) temp
+
+/-- bindings plus the contents of every object's `temp_prop` -/
+structure HState (α : Type) where
+  s : IState
+  temp : Temp α
+
+/-- a history step: a binding operation (does not touch any `temp_prop`:
+`_set_particle_arrays` adds a zeroed `temp_prop` only to an array that has none;
+what an array brings along is part of the arbitrary initial `temp`), or
+`interpolate(prop)` with the arrays' data `env` at the time of the call -/
+inductive HOp (α : Type) where
+  | bind (op : Op)
+  | interp (env : Nat → ArrData α) (prop : String)
+
+def hstep (h : HState α) : HOp α → HState α
+  | HOp.bind op => { h with s := step h.s op }
+  | HOp.interp env prop => { h with temp := stage env prop h.s.arrays h.temp }
+
+def hrun (h : HState α) (ops : List (HOp α)) : HState α := ops.foldl hstep h
+
+/-- the binding operations of a history -/
+def bindOps : List (HOp α) → List Op
+  | [] => []
+  | HOp.bind op :: rest => op :: bindOps rest
+  | HOp.interp _ _ :: rest => bindOps rest
+
+end
+
 end PysphVerif.Interp
